@@ -6,9 +6,10 @@
         permutation of the positions, the permutation being the Fisher-Yates image of its choice
         vector (C17).  The counting lemmas (uniform permutation, arg-min symmetry) and every
         variance clause are not part of this file: see DESIGN.md. *)
-From Coq Require Import List ZArith Bool.
+From Coq Require Import List ZArith Bool Factorial.
 From PMH Require Import Lib.ListArr Model.ProbMinHash Proofs.ProbMinHash Model.FYShuffle Proofs.FYShuffle
-  Model.SuperMinHash Model.SuperMinHash2 Proofs.SuperMinHash Proofs.SuperMinHash2 Gen.FlagsSmh.
+  Model.SuperMinHash Model.SuperMinHash2 Proofs.SuperMinHash Proofs.SuperMinHash2 Gen.FlagsSmh
+  Proofs.SmhUniform Lib.Counting Model.Estimators Gen.EstSmh Proofs.Estimators.
 Import ListNotations.
 Open Scope Z_scope.
 
@@ -32,7 +33,36 @@ Theorem C03_single_item_is_a_permutation : forall m sc, ks_ok m 0 sc -> length s
   arr m (final_perm (seq 0 m) 0 sc).
 Proof. exact single_item_positions. Qed.
 
+(* uniform permutation of a single item: every arrangement of the positions comes from exactly one
+   index vector (k_0 .. k_{m-1}), j <= k_j < m; there are m! such vectors *)
+Theorem C03_single_item_permutation_uniform : forall m sigma, arr m sigma ->
+  exists ks, length ks = m /\ ksn_ok m 0 ks /\
+    forall sc, length sc = m -> ks_ok m 0 sc -> (final_perm (seq 0 m) 0 sc = sigma <-> ks_of sc = ks).
+Proof. exact smh_single_item_uniform. Qed.
+
+Theorem C03_index_vectors_counted : forall n j,
+  length (all_ks j n) = fact n /\ forall ks, In ks (all_ks j n) <-> (length ks = n /\ ksn_ok (j + n) j ks).
+Proof. intros n j. split; [exact (all_ks_count n j)|exact (all_ks_spec n j)]. Qed.
+
+(* under a uniformly random ranking of the items of A u B, the lowest-ranked item of A is the
+   lowest-ranked item of B with probability |A n B| / |A u B| (counting over all |U|! rankings) *)
+Theorem C03_collision_share_under_uniform_ranking : forall (inA inB : nat -> bool) (U : list nat),
+  U <> [] -> NoDup U -> (forall x, In x U -> inA x || inB x = true) ->
+  (length (filter (collide Nat.eqb inA inB) (perms U)) * length U
+   = length (filter (fun x => inA x && inB x) U) * fact (length U))%nat.
+Proof. intros inA inB U. apply (collision_share Nat.eqb Nat.eqb_eq inA inB U). Qed.
+
+(* the estimators of superminhasher.rs / superminhasher2.rs (regenerated shapes): on equal lengths each returns
+   exactly (number of equal positions, length) *)
+Theorem C03_estimator_is_match_fraction : forall name e, In (name, e) smh_estimators ->
+  forall a b, length a = length b -> est_run e a b = EstOk (count_eq a b) (length a).
+Proof. exact (fun name e Hin a b H => est_exact e a b (list_sane smh_estimators eq_refl name e Hin) H). Qed.
+
 Print Assumptions C03_source_flag.
 Print Assumptions C03_superminhash_is_min.
 Print Assumptions C03_superminhash2_final.
 Print Assumptions C03_single_item_is_a_permutation.
+Print Assumptions C03_single_item_permutation_uniform.
+Print Assumptions C03_index_vectors_counted.
+Print Assumptions C03_collision_share_under_uniform_ranking.
+Print Assumptions C03_estimator_is_match_fraction.
